@@ -120,8 +120,12 @@ class BodyStub:
 
 class FixProbe(_ValueClassInstance):
     """`_fixpoint` is the inherited, unmodified method; classes live in the definition stubs"""
-    def_use: DUStub
+    du: DUStub
     by_def: ClsTable
+
+    @property
+    def def_use(self):              # the base class has a property of this name (type_info.def_use)
+        return self.du
 
     def _set_def(self, d, cls):
         d.cls = cls if isinstance(cls, bool) else True        # `_TOP` of the one-atom lattice
